@@ -2,6 +2,7 @@ package serialize
 
 import (
 	"fmt"
+	"reflect"
 
 	"github.com/kercylan98/vivid"
 	"github.com/kercylan98/vivid/internal/messages"
@@ -36,11 +37,11 @@ func EncodeEnvelopWithRemoting(codec vivid.Codec, envelop vivid.Envelop) (data [
 	}
 
 	var senderAddr, senderPath string
-	if s := envelop.Sender(); s != nil {
+	if s := envelop.Sender(); !isNilRef(s) {
 		senderAddr, senderPath = s.GetAddress(), s.GetPath()
 	}
 	var receiverAddr, receiverPath string
-	if r := envelop.Receiver(); r != nil {
+	if r := envelop.Receiver(); !isNilRef(r) {
 		receiverAddr, receiverPath = r.GetAddress(), r.GetPath()
 	}
 
@@ -56,6 +57,15 @@ func EncodeEnvelopWithRemoting(codec vivid.Codec, envelop vivid.Envelop) (data [
 	out := make([]byte, len(writer.Bytes()))
 	copy(out, writer.Bytes())
 	return out, nil
+}
+
+// isNilRef 判断引用是否为空；接口中装着 nil 指针（如 (*Ref)(nil)）时 `ref != nil` 为真，直接调用其方法会 panic。
+func isNilRef(ref vivid.ActorRef) bool {
+	if ref == nil {
+		return true
+	}
+	rv := reflect.ValueOf(ref)
+	return rv.Kind() == reflect.Ptr && rv.IsNil()
 }
 
 // DecodeEnvelopWithRemoting 解码的字段顺序必须与 EncodeEnvelopWithRemoting 线格式一致：
